@@ -144,7 +144,8 @@ def remove_deletes_markers(ctx, res, rule):
         pat = fors[0]["pat"]
         first = pat["pats"][0] if pat["p"] == "tuple" else pat
         arg = T.render(sinks[0]["args"][0])
-        ok = first.get("p") == "bind" and arg in (first["name"] + ".clone()", first["name"]) and any(x is sinks[0] for x in T.nodes(fors[0]["body"]))
+        nm_ = first.get("name")
+        ok = first.get("p") == "bind" and arg in (nm_ + ".clone()", nm_, "%s.start..%s.end" % (nm_, nm_)) and any(x is sinks[0] for x in T.nodes(fors[0]["body"]))
     else:
         ok = False
     blk = T.peel(b["tree"])
